@@ -122,6 +122,73 @@ pub fn gen_program(r: &mut Rng, cfg: &GenCfg) -> MProgram {
 /// `Vec<Bx<C>>`) and one or two do not (`C`, `Pair<A, B>`), optionally guarded by where-clauses on a second trait with
 /// a blanket impl over an auto-like trait. Goals with unknowns then have many answers whose anti-unification is
 /// non-trivial for a prefix and trivial overall — the situation the aggregation logic has to get right.
+/// Transitive closure over a small directed graph (3-4 nodes, random edges, usually with cycles): `Edge` facts and
+/// `Path` defined by a base rule plus one step rule per intermediate node (left- or right-recursive). The tables of
+/// `Ni: Path<?>` form positive cycles of every length; every answer set is finite and known.
+pub fn gen_graph(r: &mut Rng) -> (MProgram, Vec<(MGoal, Vec<usize>)>) {
+    let mut p = MProgram::default();
+    let n = 3 + r.below(2);
+    let node = |i: usize| MTy::nullary(&format!("N{}", i));
+    for i in 0..n {
+        p.structs.push(MStruct { name: format!("N{}", i), ..Default::default() });
+    }
+    p.traits.push(MTrait { name: "Edge".into(), nparams: 1, ..Default::default() });
+    p.traits.push(MTrait { name: "Path".into(), nparams: 1, ..Default::default() });
+    // a cycle through all or most nodes, plus random extra edges
+    let mut edges: Vec<(usize, usize)> = vec![];
+    let cyc = 2 + r.below(n - 1);
+    for i in 0..cyc {
+        edges.push((i, (i + 1) % cyc));
+    }
+    for _ in 0..r.below(4) {
+        edges.push((r.below(n), r.below(n)));
+    }
+    if r.chance(25) {
+        edges.remove(0);
+    }
+    edges.sort();
+    edges.dedup();
+    r.shuffle(&mut edges);
+    for (a, b) in &edges {
+        p.impls.push(MImpl { head: MPred::new("Edge", vec![node(*a), node(*b)]), positive: true, ..Default::default() });
+    }
+    let (x, y) = (MTy::Var(0), MTy::Var(1));
+    let mut rules = vec![MImpl { nvars: 2, head: MPred::new("Path", vec![x.clone(), y.clone()]), wheres: vec![MPred::new("Edge", vec![x.clone(), y.clone()])], positive: true, ..Default::default() }];
+    let left = r.chance(50);
+    for z in 0..n {
+        let wheres = if left {
+            // X: Path<Z>, Z: Edge<Y>
+            vec![MPred::new("Path", vec![x.clone(), node(z)]), MPred::new("Edge", vec![node(z), y.clone()])]
+        } else {
+            vec![MPred::new("Edge", vec![x.clone(), node(z)]), MPred::new("Path", vec![node(z), y.clone()])]
+        };
+        rules.push(MImpl { nvars: 2, head: MPred::new("Path", vec![x.clone(), y.clone()]), wheres, positive: true, ..Default::default() });
+    }
+    r.shuffle(&mut rules);
+    p.impls.extend(rules);
+    let v = |i: usize| MTy::Var(i);
+    let mut goals: Vec<(MGoal, Vec<usize>)> = vec![];
+    for i in 0..n {
+        goals.push((MGoal::Exists(vec![0], 0, Box::new(MGoal::Pred(MPred::new("Path", vec![node(i), v(0)])))), vec![0]));
+    }
+    goals.push((MGoal::Exists(vec![0], 0, Box::new(MGoal::Pred(MPred::new("Path", vec![v(0), node(0)])))), vec![0]));
+    goals.push((MGoal::Exists(vec![0, 1], 0, Box::new(MGoal::Pred(MPred::new("Path", vec![v(0), v(1)])))), vec![0, 1]));
+    goals.push((MGoal::Pred(MPred::new("Path", vec![node(0), node(0)])), vec![]));
+    goals.push((MGoal::Exists(vec![0], 0, Box::new(MGoal::And(vec![MGoal::Pred(MPred::new("Path", vec![node(0), v(0)])), MGoal::Pred(MPred::new("Path", vec![v(0), node(0)]))]))), vec![0]));
+    goals.push((MGoal::Pred(MPred::new("Path", vec![node(n - 1), node(0)])), vec![]));
+    r.shuffle(&mut goals);
+    (p, goals)
+}
+
+/// The multi-answer fragment or (one time in three) the graph fragment.
+pub fn gen_multi_or_graph(r: &mut Rng) -> (MProgram, Vec<(MGoal, Vec<usize>)>) {
+    if r.chance(33) {
+        gen_graph(r)
+    } else {
+        gen_multi_answer(r)
+    }
+}
+
 pub fn gen_multi_answer(r: &mut Rng) -> (MProgram, Vec<(MGoal, Vec<usize>)>) {
     let mut p = MProgram::default();
     for n in ["A", "B", "C", "D"] {
